@@ -4,6 +4,8 @@ Never imported or executed; parsed by the checker only."""
 from amaranth import *
 from amaranth.lib import wiring
 from amaranth.lib.wiring import In
+from functools import reduce
+from operator import or_
 
 
 class _Helper:
@@ -42,4 +44,9 @@ class StatefulThing(wiring.Component):
         for res, res_name, res_range in self.bus.memory_map.resources():
             m.submodules["__".join(res_name)] = res
         self._helper.grow()
+        # a reducer without an identity over a list that is empty for a component without entries
+        terms = []
+        for res, res_name, res_range in self.bus.memory_map.resources():
+            terms.append(res)
+        m.d.comb += self.bus.eq(reduce(or_, terms))
         return m
